@@ -17,6 +17,7 @@ package orchestrator
 import (
 	"context"
 	"fmt"
+	"slices"
 
 	"github.com/conduitio/conduit-commons/rollback"
 	"github.com/conduitio/conduit/pkg/connector"
@@ -146,15 +147,26 @@ func (c *ConnectorOrchestrator) Delete(ctx context.Context, id string) error {
 		return err
 	}
 	r.Append(func() error {
-		_, err = c.connectors.Create(ctx, id, conn.Type, conn.Plugin, conn.PipelineID, conn.Config, conn.ProvisionedBy)
+		restored, err := c.connectors.Create(ctx, id, conn.Type, conn.Plugin, conn.PipelineID, conn.Config, conn.ProvisionedBy)
+		if err == nil {
+			// bring back the connector that was deleted, not a new one that
+			// has lost its position
+			restored.State, restored.LastActiveConfig = conn.State, conn.LastActiveConfig
+			restored.CreatedAt, restored.UpdatedAt = conn.CreatedAt, conn.UpdatedAt
+		}
 		return err
 	})
+	oldIDs, oldUpdatedAt := slices.Clone(pl.ConnectorIDs), pl.UpdatedAt
 	_, err = c.pipelines.RemoveConnector(ctx, pl.ID, id)
 	if err != nil {
 		return err
 	}
 	r.Append(func() error {
-		_, err := c.pipelines.AddConnector(ctx, pl.ID, id)
+		restored, err := c.pipelines.AddConnector(ctx, pl.ID, id)
+		if err == nil {
+			// AddConnector appends, the connector has to get its old place back
+			restored.ConnectorIDs, restored.UpdatedAt = oldIDs, oldUpdatedAt
+		}
 		return err
 	})
 	err = txn.Commit()
